@@ -1411,7 +1411,9 @@ func getPath(keys []interface{}, set map[string]int) *pathTransform {
 	for _, k := range keys {
 		switch v := k.(type) {
 		case int:
-			counterKey := strings.Join(originalPath, ".")
+			// the count of an array's kept elements has a key of its own (trailing separator): the joined path is
+			// also the key of the array's own position when the array is an element of another array.
+			counterKey := strings.Join(originalPath, ".") + "."
 			originalPath = append(originalPath, fmt.Sprintf("%d", v))
 			mapperKey := strings.Join(originalPath, ".")
 
